@@ -4,6 +4,7 @@
 From Coq Require Import List Bool NArith ZArith.
 Import ListNotations.
 From Setec Require Import Base.SMap Corr.Common Client.Store Client.CacheDoc Client.CacheHist Client.CacheFile.
+From Setec Require Server.FSMap Server.FS.
 Set Implicit Arguments.
 
 (* ---- short constructors for the generated terms (cases are elaborated in N_scope) *)
@@ -79,7 +80,9 @@ Inductive case :=
 | CConc (h : case) (now : Z) (evs : list (ev bytes)) (writes : list json) (rs : option restart) (fc : option fcobs)
         (served1 : list (name * option bytes))   (* h: the sequential prefix (a CHist); then the concurrent block *)
 | CTrace (expect_ok : bool) (t : list fop)               (* one FileCache.Write under strace; expect_ok = it returned nil *)
-| CInject (panicked : bool) (content : N) (t : list fop). (* kill / error injection: file content 0 = old, 1 = new, 2 = neither *)
+| CInject (panicked : bool) (content : N) (t : list fop)  (* kill / error injection: file content 0 = old, 1 = new, 2 = neither *)
+| CFs (old : option (list N)) (new : list N) (tr : list (Setec.Server.FS.op N)).
+    (* one FileCache.Write traced with real bytes, in the vocabulary of the file-system model of C04 *)
 
 Definition sv_eqb (a b : option (N * bytes)) : bool :=
   option_beq (fun x y => (fst x =? fst y)%N && neqb (snd x) (snd y)) a b.
@@ -238,6 +241,24 @@ Definition check_conc (names : list name) (age now : Z) (probe : list name)
 
 End Check.
 
+(* ---- the file-system model of C04 (Server/FS.v) applied to the cache file: constructors under
+   names that do not clash with the store model's *)
+Notation xop := (Setec.Server.FS.op N).
+Definition XLive := Setec.Server.FS.Live.
+Definition XTmp := Setec.Server.FS.Tmp.
+Definition XOther := Setec.Server.FS.Other.
+Definition XStat : Setec.Server.FS.path -> xop := @Setec.Server.FS.Stat N.
+Definition XCreateExcl : N -> Setec.Server.FS.path -> N -> xop := @Setec.Server.FS.CreateExcl N.
+Definition XOpenW : N -> Setec.Server.FS.path -> bool -> xop := @Setec.Server.FS.OpenW N.
+Definition XWrite : N -> list N -> xop := @Setec.Server.FS.Write N.
+Definition XChmod : N -> N -> xop := @Setec.Server.FS.Chmod N.
+Definition XTrunc : N -> xop := @Setec.Server.FS.Trunc N.
+Definition XFsync : N -> xop := @Setec.Server.FS.Fsync N.
+Definition XClose : N -> xop := @Setec.Server.FS.Close N.
+Definition XRename : Setec.Server.FS.path -> Setec.Server.FS.path -> xop := @Setec.Server.FS.Rename N.
+Definition XUnlink : Setec.Server.FS.path -> xop := @Setec.Server.FS.Unlink N.
+Definition XUnknown : Setec.Server.FS.path -> xop := @Setec.Server.FS.Unknown N.
+
 Definition check (c : case) : bool :=
   match c with
   | CHist tbl rfail cin names allow age ia now0 probe cok creqs cwok cobs steps =>
@@ -248,4 +269,5 @@ Definition check (c : case) : bool :=
   | CConc _ _ _ _ _ _ _ => false
   | CTrace expect_ok t => if expect_ok then atomic_write_ok t else failed_write_ok t
   | CInject panicked content t => negb panicked && ((content =? 0)%N || (content =? 1)%N) && failed_write_ok t
+  | CFs old new tr => Setec.Server.FS.atomic_replace_ok N.eqb old new tr
   end.
